@@ -251,6 +251,28 @@ PROPS["C05"] = {
     "level_note": "Trusted: Lean kernel, harness. The client manager's routing is exercised by the Go-client scenarios, not modelled.",
     "technique": "Lean 4 proof (case analysis + invariant over packet sequences) + raw-protocol script correspondence",
 }
+PROPS["C06"] = {
+    "lean": ["SioVerif.Props.C06"],
+    "components": ["timed:TestLifecycle"],
+    "facts": ["sioConnectRechecksClosed"],
+    "timeout": {"quick": 900, "thorough": 3000},
+    "rule": "real server and client stacks on the in-memory network under virtual time: termination cause {client Close, TCP cut, black-hole until ping timeout, server "
+            "Disconnect(false), Disconnect(true), client DISCONNECT, Server.Close, undecodable packet} x phase {while a namespace middleware runs, connected idle, in the middle "
+            "of a burst in both directions, during the polling->websocket upgrade}, pairs of causes at the same instant, and a scripted session whose every client connection is "
+            "cut after k bytes for k = 1, 38, 75, .. (thorough: step 5) on polling, websocket and the upgrade; observed per socket: disconnecting / disconnect handler counts, order "
+            "and reasons, namespace socket list, adapter rooms. Non-trivial = every scenario in which a socket had connected; distinct by description.",
+    "trusted_base": EXT + ["go1.26.8 testing/synctest", "every label of the model is one critical section / call of server_conn.go, namespace.go, server_socket.go"],
+    "assumptions": ["scenarios that make several goroutines close one WebSocket at once are run over long-polling only: nhooyr's closing handshake blocks inside the socket's "
+                    "sync.Once and a synctest bubble cannot advance its clock past goroutines queued on that mutex (limitation of the rig, stated in DESIGN.md)",
+                    "the reason reported is checked against a table of reasons that name the cause; during a middleware / an upgrade the cause may surface through another layer"],
+    "partial": ["handlers registered in a connection handler that runs after the socket was already disconnected never run (finding D35)"],
+    "level_text": "Lean 4 theorems over a transition system of one socket's admission (doConnect, store, re-check of the connection's closed flag) interleaved in every possible "
+                  "way with the connection's end (flag, sweep) and namespace-level closes: the disconnect handlers run at most once in every reachable state; once the end has "
+                  "been processed and the admission has finished they have run exactly once and the socket is not listed, in no room, not connected and not in the connection's "
+                  "store. The presence of the re-check is read from the source. The real server's final state for each generated cause x phase equals the model's.",
+    "level_note": "Trusted: Lean kernel, translator (presence of the re-check), synctest, harness. The Engine.IO layer's own close (closeOnce, superseded transports) is exercised, not modelled.",
+    "technique": "Lean 4 proof (inductive invariant over all interleavings) + fault-injection scenario correspondence",
+}
 
 NOT_APPLICABLE = [
 ]
